@@ -101,7 +101,9 @@ CHECKS["C17"] = dict(
           "admissible pick): rank, coverage, +-1 balance, monotone wiring, labelling, determinism; no-repeat; all "
           "pairs covered; Crystals rank/coverage whenever the use allocation returns (known finding D13 witness "
           "otherwise). Structures compared in Coq with the code's on every run."),
-    note="Models: Model/RTLStructure.v, Model/Ensembles.v; NumPy random values replayed/recorded as oracle values.",
+    note="Models: Model/RTLStructure.v, Model/Ensembles.v; NumPy random values replayed/recorded as oracle values. "
+         "Determinism across interpreters (PYTHONHASHSEED) is a differential probe run in two fresh interpreters on "
+         "every run (the theorems state determinism as: the structure is a function of config and oracle values).",
     technique="Coq proof over combinatorial model with permutation oracles + in-Coq structural comparison",
     design="7/C17")
 CHECKS["C18"] = dict(
@@ -189,7 +191,10 @@ CHECKS["C03"] = dict(
          "exercised, not proved. Kronecker-factored members (via the C07 development, tf_keras constraint order "
          "modelled for both optimizer generations) and RTL-wired ensembles (via the C17 wiring theorems) are covered "
          "by the composition and reachable-feasibility theorems; single-lattice KFL premade models are compared "
-         "weight for weight with the Coq model. Open known findings D32, D57.",
+         "weight for weight with the Coq model. Every CalibratedLatticeEnsemble (explicit, random, Crystals, rtl_layer; "
+         "lattice or KFL members) is extracted from the Keras graph, evaluated as ensemble2_eval in Coq against model(x), "
+         "and the hypotheses of the ensemble theorems are decided in Coq on the extracted structure by a boolean check "
+         "with a soundness proof (C03_wiring_check_sound). Open known findings D32, D57.",
     technique="Coq proof (state-machine invariant + composition of monotone maps) + in-Coq correspondence with premade models under training histories",
     design="7/C03")
 CHECKS["C07"] = dict(
@@ -276,7 +281,9 @@ CHECKS["C16"] = dict(
          "invisible to the typed Verify.v model and found by the constructor runs. Theorems about Model/Verify.v: "
          "every conjunct of every accepts_* function has a 'violating it => rejected' theorem in user terms, and an "
          "accepted configuration satisfies the validity hypotheses of the C01 / C04 / C06 / C07 theorems (bridges). "
-         "Open known findings D42-D51.",
+         "Decision models (tied on every run, each conjunct with a rejection theorem) also cover RTL, CDF, the "
+         "regulariser objects and premade verify_config; accepted RTL configs give the premise of the C17 structure "
+         "theorems. Open known findings D42-D51.",
     technique="Coq proof over functions translated from source + in-Coq correspondence of accept/reject decisions",
     design="7/C16")
 
